@@ -47,6 +47,9 @@ type Case struct {
 	// Big: one more top-level Str field of this many bytes, so that the event's encoded size lands
 	// in a chosen window below the 64 KiB pooling limit (at most one per chain: two would exceed it)
 	Big int `json:"big,omitempty"`
+	// BigArr: the chain ends with an Array holding one string of this many bytes followed by a small
+	// Array: both come from the same pool, which must keep serving both sizes without reallocating
+	BigArr int `json:"big_array,omitempty"`
 }
 
 var bigPayload = strings.Repeat("0123456789abcdef", 4096) // 64 KiB of plain text
@@ -442,6 +445,9 @@ func run(c *Case) (string, bool) {
 		if c.Big > 0 {
 			e = e.Str("big", bigPayload[:c.Big])
 		}
+		if c.BigArr > 0 {
+			e = e.Array("bigarr", zerolog.Arr().Str(bigPayload[:c.BigArr])).Array("smallarr", zerolog.Arr().Int(1).Bool(true))
+		}
 		switch fin {
 		case "send":
 			e.Send()
@@ -523,7 +529,10 @@ func TestRapidChains(t *testing.T) {
 			Fin: rapid.SampledFrom([]string{"msg", "send", "msgempty"}).Draw(rt, "fin"), Build: buildName()}
 		c.Steps = genSteps(rt, 0, 8, "s")
 		c.FailFirst = rapid.IntRange(0, 4).Draw(rt, "failfirst") == 0
-		if rapid.IntRange(0, 5).Draw(rt, "big") == 0 {
+		if rapid.IntRange(0, 7).Draw(rt, "bigarr") == 0 {
+			c.BigArr = rapid.SampledFrom([]int{600, 4200, 5000, 9000, 20000}).Draw(rt, "bigarrsize")
+		}
+		if c.BigArr == 0 && rapid.IntRange(0, 5).Draw(rt, "big") == 0 {
 			// sizes around the buffer growth steps up to just below the pooling limit; the chain itself stays small
 			c.Big = rapid.SampledFrom([]int{600, 4000, 30000, 33000, 57400, 60000, 61000}).Draw(rt, "bigsize")
 		}
@@ -579,6 +588,15 @@ func TestEachFamily(t *testing.T) {
 			n++
 			if msg, _ := run(c); msg != "" {
 				fail(t, "family", c, fmt.Sprintf("with a %d-byte field: %s", big, msg))
+			}
+		}
+	}
+	for _, lg := range []string{"bare", "ctx", "filtered"} {
+		for _, ba := range []int{600, 4200, 5000, 9000, 20000, 40000} {
+			c := &Case{Logger: lg, Fin: "msg", Build: buildName(), Steps: []Step{{M: "array", V: 1, Sub: []Step{{M: "int", V: 1}}}}, BigArr: ba}
+			n++
+			if msg, _ := run(c); msg != "" {
+				fail(t, "family", c, fmt.Sprintf("with a %d-byte array followed by a small one: %s", ba, msg))
 			}
 		}
 	}
